@@ -326,6 +326,90 @@ Proof.
     destruct (revoke_ok p (q_idp q)); cbn [r_revoked]; intros [<-|[]]; exists s; auto.
 Qed.
 
+(* the signature stays valid for the whole window: what passed once passes again until ts + 300
+   (the sign-out page's form posts the same three fields back) *)
+Lemma valid_signature_window secret uri sig ts parses now1 now2 t :
+  valid_signature mac secret uri sig ts parses now1 = true ->
+  parse_int ts = Some t -> (now2 - t <= 300)%Z ->
+  valid_signature mac secret uri sig ts parses now2 = true.
+Proof.
+  unfold valid_signature. intros H Ht Hw.
+  destruct (is_nil uri || is_nil sig || is_nil ts || is_nil secret); [discriminate|].
+  destruct (negb parses); [discriminate|].
+  destruct (b64_decode sig); [|discriminate]. rewrite Ht in *.
+  unfold sig_ttl in *. destruct (now1 - t >? 300)%Z; [discriminate|].
+  replace (now2 - t >? 300)%Z with false by lia. exact H.
+Qed.
+
+Theorem page_then_post secret p now1 now2 q s idp t :
+  q_method q = MGet -> q_cookie q = ACSealed s -> gates_pass secret now1 q = true ->
+  parse_int (q_ts q) = Some t -> (now2 - t <= 300)%Z ->
+  (* the page carries the request's own three fields ... *)
+  r_body (auth_sign_out mac secret p now1 q) = BPage 200%Z (as_email s) (q_uri q) (q_sig q) (q_ts q) /\
+  (* ... and posting them back passes the gates again *)
+  gates_pass secret now2 {| q_method := MPost; q_uri := q_uri q; q_sig := q_sig q; q_ts := q_ts q;
+                            q_parses := q_parses q; q_in_domain := q_in_domain q; q_cookie := ACSealed s; q_idp := idp |} = true.
+Proof.
+  intros Hm Hc Hg Ht Hw. unfold gates_pass in *. apply andb_true_iff in Hg as [Hd Hv]. split.
+  - unfold auth_sign_out. rewrite Hm, Hd, Hv, Hc. reflexivity.
+  - cbn [q_in_domain q_uri q_sig q_ts q_parses]. rewrite Hd. cbn [andb].
+    eapply valid_signature_window; eauto.
+Qed.
+
+(* ---- histories: a cleared session's token is revoked at the IdP, whatever happened before ---- *)
+Definition ainv (st : astate) : Prop :=
+  forall p s, In (p, s) (st_cleared st) -> In (revoke_token p s) (st_revoked st).
+
+Lemma ainv_step secret st e : ainv st -> ainv (astep mac secret st e).
+Proof.
+  intros Hinv p s Hin. unfold astep in *. cbn [st_cleared st_revoked] in *.
+  set (r := auth_sign_out mac secret (e_provider e) (e_now e) (e_req e)) in *.
+  assert (Hold : In (p, s) (st_cleared st) -> In (revoke_token p s)
+            ((if revoke_ok (e_provider e) (q_idp (e_req e)) then r_revoked r else []) ++ st_revoked st)).
+  { intros H. apply in_or_app. right. apply Hinv. exact H. }
+  destruct (q_cookie (e_req e)) as [| |s0] eqn:Eck; [auto | auto |].
+  destruct (r_clears r) eqn:Ecl; [|auto].
+  destruct Hin as [Heq|Hin]; [|auto]. inversion Heq; subst. clear Heq.
+  assert (Hm : q_method (e_req e) = MPost).
+  { destruct (q_method (e_req e)) eqn:Em; [|reflexivity|].
+    - destruct (get_is_passive secret (e_provider e) (e_now e) (e_req e) Em) as [H _]. fold r in H. congruence.
+    - destruct (needs_valid_request secret (e_provider e) (e_now e) (e_req e) (or_intror Em)) as [_ [H _]]. fold r in H. congruence. }
+  destruct (revoke_then_clear secret (e_provider e) (e_now e) (e_req e) Hm) as [H1 _]. fold r in H1.
+  destruct (H1 Ecl) as [_ [_ [[Hj _]|[s1 [Hs1 [Hrev Hok]]]]]]; [congruence|].
+  rewrite Eck in Hs1. inversion Hs1; subst s1. rewrite Hok, Hrev. left. reflexivity.
+Qed.
+
+Theorem cleared_implies_revoked secret evs : ainv (arun mac secret evs).
+Proof.
+  unfold arun. assert (H0 : ainv {| st_revoked := []; st_cleared := [] |}) by (intros p s []).
+  revert H0. generalize {| st_revoked := []; st_cleared := [] |}.
+  induction evs as [|e evs IH]; intros st Hst; cbn [fold_left]; [exact Hst|].
+  apply IH. apply ainv_step. exact Hst.
+Qed.
+
+(* the IdP's state only grows, and only by tokens of sessions presented on valid confirmed requests *)
+Theorem revoked_provenance secret evs tok :
+  In tok (st_revoked (arun mac secret evs)) ->
+  exists e s, In e evs /\ q_cookie (e_req e) = ACSealed s /\ tok = revoke_token (e_provider e) s /\
+              q_method (e_req e) = MPost /\ gates_pass secret (e_now e) (e_req e) = true /\
+              revoke_ok (e_provider e) (q_idp (e_req e)) = true.
+Proof.
+  unfold arun.
+  assert (G : forall evs st, In tok (st_revoked (fold_left (astep mac secret) evs st)) ->
+            In tok (st_revoked st) \/
+            exists e s, In e evs /\ q_cookie (e_req e) = ACSealed s /\ tok = revoke_token (e_provider e) s /\
+              q_method (e_req e) = MPost /\ gates_pass secret (e_now e) (e_req e) = true /\
+              revoke_ok (e_provider e) (q_idp (e_req e)) = true).
+  { clear evs. induction evs as [|e evs IH]; intros st H; cbn [fold_left] in H; [left; exact H|].
+    destruct (IH _ H) as [H1|[e' [s [Hin Hrest]]]].
+    - unfold astep in H1. cbn [st_revoked] in H1. apply in_app_or in H1 as [H1|H1]; [|left; exact H1].
+      right. destruct (revoke_ok (e_provider e) (q_idp (e_req e))) eqn:Eok; [|destruct H1].
+      destruct (revoked_is_own_token secret (e_provider e) (e_now e) (e_req e) tok H1) as [s [Hs [Ht [Hm Hg]]]].
+      exists e, s. repeat split; auto. left; reflexivity.
+    - right. exists e', s. split; [right; exact Hin | exact Hrest]. }
+  intros H. destruct (G evs _ H) as [[]|H']. exact H'.
+Qed.
+
 End Mac.
 
 (* hypotheses are satisfiable: a toy MAC with 32-byte output *)
@@ -346,4 +430,19 @@ Example signout_roundtrip_example :
                   (form_get k_ts (l_params l)) true 1700000240%Z = true /\
   valid_signature toy_mac secret (form_get k_redirect_uri (l_params l)) (form_get k_sig (l_params l))
                   (form_get k_ts (l_params l)) true 1700000301%Z = false.
+Proof. vm_compute. repeat split. Qed.
+
+(* a complete sign-out as a history: proxy redirect followed (POST) 100 s later with a live session,
+   IdP answers 200 — the cookie is cleared and the access token is revoked; the same request under
+   a 503 answer clears and revokes nothing *)
+Example signout_history_example :
+  let host := [97;112;112;46;116;101;115;116] in
+  let secret := [115;51;99;114;51;116] in
+  let s := {| as_email := [97;64;98]; as_access := [97;116]; as_refresh := [114;116] |} in
+  let l := p_loc (proxy_sign_out toy_mac [] secret true true host 1700000000%Z) in
+  let ev idp := {| e_provider := PGoogle; e_now := 1700000100%Z; e_req := follow l MPost true (ACSealed s) idp |} in
+  arun toy_mac secret [ev (IdpSt 200%Z BNotJSON)] = {| st_revoked := [[97;116]]; st_cleared := [(PGoogle, s)] |} /\
+  arun toy_mac secret [ev (IdpSt 503%Z BNotJSON)] = {| st_revoked := []; st_cleared := [] |} /\
+  r_body (auth_sign_out toy_mac secret PGoogle 1700000100%Z (follow l MPost true (ACSealed s) (IdpSt 503%Z BNotJSON)))
+    = BPage 500%Z [97;64;98] (form_get k_redirect_uri (l_params l)) (form_get k_sig (l_params l)) (form_get k_ts (l_params l)).
 Proof. vm_compute. repeat split. Qed.
